@@ -24,11 +24,25 @@ SMALL_PRIMES = [p for p in range(2, 2000) if all(p % q for q in range(2, int(p *
 OTHER = [101, 103, 107, 109, 113, 127, 131, 137, 139, 149, 151, 157, 163, 167, 173, 179, 181, 191, 193, 197, 199, 211,
          223, 227, 229, 233, 239, 241, 251, 257, 263, 269]          # harness: other_primes(n) = first n+2 (max 32)
 
-INT_HISTS = ["fresh", "reuse", "copycold", "copywarm", "copy2", "copymod", "assigncold", "assignwarm", "assignsame", "freshtt"]
-DOM_HISTS = ["fresh", "reuse", "copycold", "copywarm", "copy2", "copymod", "assigncold", "assignwarm", "assignsame",
-             "setcold", "setwarm", "setsame", "setback"]
-FIX_HISTS = ["fresh", "reuse", "assigncold", "assignwarm", "assignsame"]
-SAME_LEN_HISTS = ("assignsame", "setsame", "setback")      # the unrelated system has the SAME number of moduli
+INT_HISTS = ["fresh", "reuse", "copycold", "copywarm", "copy2", "copymod", "assigncold", "assignwarm", "assignsame", "assigncc"]
+DOM_HISTS = ["fresh", "reuse", "copycold", "copywarm", "copy2", "copymod", "assigncold", "assignwarm", "assignsame", "assigncc",
+             "setcold", "setwarm", "setsame", "setback", "dfltcopyset"]
+FIX_HISTS = ["fresh", "reuse", "assigncold", "assignwarm", "assignsame", "assigncc"]
+SAME_LEN_HISTS = ("assignsame", "setsame", "setback", "assigncc")      # the unrelated system has the SAME number of moduli
+# IntRNSsystem: element type of the container handed to the constructor ("Integer" = the plain constructor, the others = the
+# templated converting constructor) and of the residue container handed to RnsToMixedRadix / RnsToRing (a template as well)
+INT_CTORS = ["Integer", "int32", "uint32", "int64", "uint64"]
+INT_TTS = ["Integer", "int32", "uint32", "int64", "uint64"]
+FIX_TTS = ["Integer", "int32", "uint32", "int64", "uint64", "array0"]
+TYPE_MAX = {"Integer": None, "array0": None, "int32": (1 << 31) - 1, "uint32": (1 << 32) - 1, "int64": (1 << 63) - 1, "uint64": (1 << 64) - 1}
+# the entry point called FIRST on the object obtained (lazy caches are observed before and after their first use)
+INT_ORDERS = ["mix", "ring", "recip", "recipi", "prod", "rns"]
+DOM_ORDERS = ["mix", "ring", "recip", "recipi", "rns"]
+ORDER_NAME = {"mix": "RnsToMixedRadix", "ring": "RnsToRing", "recip": "Reciprocals", "recipi": "reciprocal(n-1)", "prod": "product", "rns": "RingToRns"}
+# number of moduli at which the code or the proofs split cases: 1, 2, 3, and 2^k - 1, 2^k, 2^k + 1 (RNSsystemFixed: the product tree
+# has a single odd level exactly for 2^k primes); generated on EVERY run for every history
+GRID_LENS = [1, 2, 3, 4, 5, 7, 8, 9, 15, 16, 17, 31, 32, 33]
+FIX_GRID_LENS = list(range(1, 18)) + [31, 32, 33, 63, 64, 65]
 LIFT_MODES = ["atonce", "prepared", "copies"]
 POLY_HISTS = ["fresh", "reuse", "copycold", "copywarm", "copy2"]
 POLY_DOMS = ["mi64", "mdouble", "mi32", "mu32"]
@@ -137,6 +151,73 @@ def read_source_facts(chk):
     if facts.get("cra_variant") is None:
         chk.broke("ChineseRemainder<Ring,Domain,true>::operator() no longer has a shape the model knows", str(facts.get("cra_calls")))
         facts["cra_variant"] = "fixed"
+    # 3. how the constructors initialise the lazy caches (C14_*_history_independent assume: empty _ck, _prod = one;
+    #    C14_int_ctor_presized_refuted: a constructor that sizes _ck does not have the property)
+    def strip(txt):
+        txt = re.sub(r"#if 0.*?#endif", "", txt, flags=re.S)
+        txt = re.sub(r"/\*.*?\*/", "", txt, flags=re.S)
+        return re.sub(r"//.*", "", txt)
+
+    def ck_init(inits, need_prod):
+        """'empty' | 'sized' | None from a constructor's member initialiser list"""
+        flat = "".join(inits.split())
+        if need_prod and "_prod(one)" not in flat:
+            return None
+        mm = re.search(r"_ck\(([^)]*)\)", flat)
+        if not mm or mm.group(1) in ("", "0"):
+            return "empty"
+        if re.fullmatch(r"\w+\.size\(\)", mm.group(1)):
+            return "sized"
+        return None
+    try:
+        hdr = strip(open(os.path.join(vf.REPO, "src/kernel/integer/givintrns.h")).read())
+        inl = strip(open(os.path.join(vf.REPO, "src/kernel/integer/givintrns_cstor.inl")).read())
+        pats = {"default": (hdr + inl, r"IntRNSsystem\s*\(\s*\)\s*:\s*([^{;]*)\{"),
+                "array": (inl, r"IntRNSsystem\s*\(\s*const\s+array\s*&\s*\w+\s*\)\s*:\s*([^{;]*)\{"),
+                "templated": (inl, r"IntRNSsystem\s*\(\s*const\s+Container\s*<\s*TT\s*,\s*Alloc\s*<\s*TT\s*>\s*>\s*&\s*\w+\s*\)\s*:\s*([^{;]*)\{")}
+        ctor = {}
+        for name, (txt, pat) in pats.items():
+            m = re.search(pat, txt)
+            ctor[name] = ck_init(m.group(1), True) if m else None
+        facts["int_ctor_ck"] = ctor
+        guard = re.search(r"ComputeCk\s*\(\s*\)\s*\{\s*if\s*\(\s*_ck\.size\(\)\s*!=\s*0\s*\)\s*return\s*;", inl)
+        facts["int_ComputeCk_guard"] = bool(guard)
+    except OSError:
+        facts["int_ctor_ck"] = {}
+    ic = facts.get("int_ctor_ck", {})
+    if ic.get("default") != "empty" or ic.get("array") != "empty" or ic.get("templated") not in ("empty", "sized") or not facts.get("int_ComputeCk_guard"):
+        chk.broke("IntRNSsystem constructors / ComputeCk no longer initialise and test the lazy caches in a shape the object model knows "
+                  "(expected: _prod(one) and an empty _ck in every constructor, `if (_ck.size() != 0) return;` in ComputeCk)", str(ic))
+    facts["ttck"] = ic.get("templated") if ic.get("templated") in ("empty", "sized") else "empty"
+    try:
+        inl = strip(open(os.path.join(vf.REPO, "src/kernel/field/givrnscstor.inl")).read())
+        rc = {}
+        m = re.search(r"RNSsystem\s*\(\s*\)\s*:\s*([^{;]*)\{", inl)
+        rc["default"] = ck_init(m.group(1), False) if m else None
+        m = re.search(r"RNSsystem\s*\(\s*const\s+domains\s*&\s*\w+\s*\)\s*:\s*([^{;]*)\{", inl)
+        rc["domains"] = ck_init(m.group(1), False) if m else None
+        m = re.search(r"RNSsystem\s*\(\s*const\s+Self_t\s*&\s*(\w+)\s*\)\s*:\s*([^{;]*)\{", inl)
+        if m:
+            flat = "".join(m.group(2).split())
+            R = m.group(1)
+            rc["copy"] = "ck" if ("_ck(%s._ck,givWithCopy())" % R) in flat and ("_primes(%s._primes,givWithCopy())" % R) in flat else None
+        else:
+            rc["copy"] = None
+        m = re.search(r"setPrimes\s*\(\s*const\s+domains\s*&\s*(\w+)\s*\)\s*\{(.*?)\}", inl, flags=re.S)
+        if m:
+            stmts = ["".join(x.split()) for x in m.group(2).split(";") if x.strip()]
+            rc["setPrimes"] = "reset" if stmts == ["_primes.allocate(0)", "_primes.copy(%s)" % m.group(1), "_ck.resize(0)"] else None
+            facts["rns_setPrimes_body"] = stmts
+        else:
+            rc["setPrimes"] = None
+        rc["ComputeCk_guard"] = bool(re.search(r"ComputeCk\s*\(\s*\)\s*\{\s*if\s*\(\s*_ck\.size\(\)\s*!=\s*0\s*\)\s*return\s*;", inl))
+        facts["rns_ctor_ck"] = rc
+    except OSError:
+        facts["rns_ctor_ck"] = {}
+    rc = facts.get("rns_ctor_ck", {})
+    if not (rc.get("default") == "empty" and rc.get("domains") == "empty" and rc.get("copy") == "ck" and rc.get("setPrimes") == "reset" and rc.get("ComputeCk_guard")):
+        chk.broke("RNSsystem constructors / setPrimes / ComputeCk no longer handle the reciprocal cache in the shape the object model "
+                  "(dom_mk, dom_copy, dom_setPrimes, dom_ensure_ck) was written after", str(rc))
     return facts
 
 
@@ -395,9 +476,11 @@ def main(tier, replay=None):
         "extraction: ExtrOcamlBasic only; Z/positive/nat kept as extracted inductives; OCaml 4.13.1; zarith only for text I/O in harness/zio.ml",
         "residue-domain operations (Modular<T>::init/convert/axpy/sub/mul/inv, Integer::mod/mulin/addin, gcdext) are taken as exact "
         "arithmetic mod p (properties C01-C04); validated here by the correspondence run on Modular<double|float|int32_t|int64_t|uint32_t|uint64_t|Integer|ruint<7>|Log16>, Montgomery<int32_t>",
-        "not proved, only correspondence- and oracle-tested: the recursion of RNSsystemFixed over its product tree (one combination step is proved); "
-        "reference/ownership semantics of the C++ objects (constructor arguments changed or destroyed before use) are exercised by the harness only",
-        "checks/C14.py: reads the IntRNSsystem copy map and the functor body shape from the source by regular expressions",
+        "not proved, only correspondence- and oracle-tested: copies / assignments of RNSsystemFixed, Poly1CRT and ChineseRemainder objects (the models of these "
+        "three are pure functions of the moduli); reference/ownership semantics of the C++ objects (constructor arguments changed or destroyed before use) "
+        "are exercised by the harness only",
+        "checks/C14.py: reads from the source by regular expressions: the IntRNSsystem copy map, the cache initialisers of every IntRNSsystem / RNSsystem "
+        "constructor, the body of RNSsystem::setPrimes, the ComputeCk guards, the call sequence of the functor body",
         "harness/c14_rns.C, harness/c14_fixedcopy.C, checks/C14.py (generators, python CRT / Lagrange oracles)",
         "g++ 12 / x86-64 for the implementation side",
     ]
@@ -406,6 +489,7 @@ def main(tier, replay=None):
         "model is hand-written after the code; tie = correspondence on generated cases + facts read from the source",
         "IntRNSsystem copy constructor initialises _ck from: %s  [%s]" % (facts["cksrc"], facts.get("copy_ctor_text", "")),
         "ChineseRemainder<.,.,true>::operator() call sequence %s -> model variant %s" % (facts.get("cra_calls"), facts["cra_variant"]),
+        "IntRNSsystem constructors initialise _ck: %s (templated -> model variant Ck%s); RNSsystem: %s" % (facts.get("int_ctor_ck"), facts["ttck"].capitalize(), facts.get("rns_ctor_ck")),
     ]
     # 1. proofs
     res = vf.coq_check_props(AREA)
@@ -434,49 +518,120 @@ def main(tier, replay=None):
     def other(n, hist):
         return OTHER[:min(n if hist in SAME_LEN_HISTS else n + 2, 32)]    # harness: other_primes()
 
-    def add_sys(kind, hist, sub, ps, rs, al):
+    def add_sys(kind, hist, sub, ps, rs, al, ctor="Integer", order="mix", grid=False):
         n = len(ps)
         body = "%d %s %s %d %s" % (n, " ".join(map(str, ps)), " ".join(map(str, rs)), len(al), " ".join(map(str, al)))
-        il = "%s %s %s %s" % (kind, hist, sub, body)
         o = other(n, hist)
         if kind == "int":
-            ml = "int %s %s %s %d %s" % (facts["cksrc"], hist, body, len(o), " ".join(map(str, o)))
+            il = "int %s %s %s %s %s" % (hist, ctor, sub, order, body)
+            ml = "int %s %s %s %s %s %s %d %s" % (facts["cksrc"], facts["ttck"], ctor, order, hist, body, len(o), " ".join(map(str, o)))
         elif sub in BALANCED:
-            ml = "bal %s" % body      # balanced representatives: the model's answers do not depend on the history (C14_dom_history_independent)
+            il = "rns %s %s %s %s" % (hist, sub, order, body)
+            ml = "bal %s %s" % (order, body)      # balanced representatives: the model's answers do not depend on the history (C14_dom_history_independent)
         else:
-            ml = "rns %s %s %d %s" % (hist, body, len(o), " ".join(map(str, o)))
-        cases.append({"kind": kind, "hist": hist, "sub": sub, "ps": ps, "rs": rs, "al": al, "impl": il, "model": ml})
+            il = "rns %s %s %s %s" % (hist, sub, order, body)
+            ml = "rns %s %s %s %d %s" % (order, hist, body, len(o), " ".join(map(str, o)))
+        cases.append({"kind": kind, "hist": hist, "sub": sub, "ctor": ctor, "order": order, "grid": grid, "ps": ps, "rs": rs, "al": al,
+                      "impl": il, "model": ml})
+
+    def fit_tt(tt, rs):
+        """residue container type able to hold the residues"""
+        m = TYPE_MAX[tt]
+        return tt if m is None or (max(rs) <= m and min(rs) >= 0) else "Integer"
 
     nas = 5 if quick else 12
 
     mlcap = 12 if quick else 33
     lens_small = [1, 1, 2, 2, 3, 3, 4, 5, 6, 7, 8, 9, 12, 16, 17]
     lens_big = [24, 31, 32, 33, 40] if quick else [24, 31, 32, 33, 40, 64, 65, 100, 150]
-    # ---- IntRNSsystem
-    rounds = 4 if quick else 50
+    ODD = SMALL_PRIMES[1:]
+
+    def grid_moduli(n, salt, allow2):
+        """n distinct small primes (odd, so that every residue domain accepts them; 2 as well where allowed), in an order drawn from the seed"""
+        ps = list(ODD[salt % 9: salt % 9 + n])
+        if allow2 and salt % 3 == 0:
+            ps[rng.below(n)] = 2
+        rng.shuffle(ps)
+        return ps
+
+    def grid_residues(ps):
+        """residues of an integer whose last mixed-radix digit is not 0: every reciprocal matters"""
+        P = prod(ps)
+        v = P - 1 - rng.below(max(1, P // (2 * ps[-1])))
+        return [v % p for p in ps]
+
+    def grid_as(ps):
+        P = prod(ps)
+        return [ps[rng.below(len(ps))], rng.choice([P - 1, P, P + 1, 0]), -rng.below(P * 3 + 5) - 1]
+
+    # ---- IntRNSsystem: deterministic grid  lengths x histories x constructor argument types; residue container type and
+    #      first entry point cycle with strides coprime to the loop lengths, so that every (ctor, hist), (order, hist), (tt, hist),
+    #      (ctor, order) pair occurs on every run
+    gi = 0
+    for n in GRID_LENS:
+        for hi, hist in enumerate(INT_HISTS):
+            for ci, ctor in enumerate(INT_CTORS):
+                if not quick or (ci + hi + n) % 2 == 0 or n in (1, 2, 3):
+                    ps = grid_moduli(n, gi, True)
+                    rs = grid_residues(ps)
+                    add_sys("int", hist, fit_tt(INT_TTS[(gi + hi) % len(INT_TTS)], rs), ps, rs, grid_as(ps), ctor=ctor,
+                            order=INT_ORDERS[(gi // 5 + ci + hi) % len(INT_ORDERS)], grid=True)
+                gi += 1
+    # every first entry point x every constructor type x every history on three moduli
+    for hist in INT_HISTS:
+        for ctor in INT_CTORS:
+            for order in INT_ORDERS:
+                if quick and (INT_HISTS.index(hist) + INT_CTORS.index(ctor) + INT_ORDERS.index(order)) % 2:
+                    continue
+                ps = grid_moduli(3 if order != "recipi" else 4, gi, True); gi += 1
+                rs = grid_residues(ps)
+                add_sys("int", hist, fit_tt(INT_TTS[gi % len(INT_TTS)], rs), ps, rs, grid_as(ps), ctor=ctor, order=order, grid=True)
+    # ---- IntRNSsystem, random part
+    rounds = 3 if quick else 50
     for rnd in range(rounds):
         for hist in INT_HISTS:
-            for tt in ["Integer", "int64", "uint64"]:
-                if hist == "freshtt" and tt == "Integer":
+            for tt in ["Integer", "int64", "uint64", "int32", "uint32"]:
+                if quick and (rnd + INT_HISTS.index(hist) + INT_TTS.index(tt)) % 2:
                     continue
+                ctor = rng.choice(INT_CTORS)
                 n = rng.choice(lens_small if rng.chance(4, 5) else lens_big)
-                if tt == "Integer" and hist != "freshtt":
+                if ctor == "Integer":
                     style = rng.choice(["smallprimes", "tiny", "word", "multilimb", "multilimb", "powers"])
-                    maxp = None
                 else:
                     style = rng.choice(["smallprimes", "tiny", "word", "edge", "powers"])
-                    maxp = (1 << 63) - 1
+                maxp = TYPE_MAX[ctor]
                 if n > 17 and style in ("tiny",):
                     style = "smallprimes"
                 if style == "multilimb" and n > mlcap:
                     n = rng.range(2, mlcap)      # cost of the extracted model ~ n^2 * bits^2 on the inductive Z
                 ps = gen_moduli(rng, n, maxp, style)
                 rs = gen_residues(rng, ps, allow_out_of_range_tail=(tt == "Integer"))
-                add_sys("int", hist, tt, ps, rs, gen_as(rng, ps, nas if n <= 17 else 2))
-    # ---- RNSsystem<Integer, Domain>
-    for rnd in range(3 if quick else 40):
+                add_sys("int", hist, fit_tt(tt, rs), ps, rs, gen_as(rng, ps, nas if n <= 17 else 2), ctor=ctor, order=rng.choice(INT_ORDERS))
+    # ---- RNSsystem<Integer, Domain>: deterministic grid  lengths x histories, domains and first entry points cycling
+    gi = 0
+    per = 3 if quick else len(DOMS)
+    for n in GRID_LENS:
+        for hi, hist in enumerate(DOM_HISTS):
+            for k in range(per):
+                dom = DOMS[(gi + k * 5) % len(DOMS)] if quick else DOMS[k]
+                pred = dom_pred(dom)
+                ps = grid_moduli(n, gi + k, pred(2))
+                rs = grid_residues(ps)
+                add_sys("rns", hist, dom, ps, rs, grid_as(ps), order=DOM_ORDERS[(gi + k + hi) % len(DOM_ORDERS)], grid=True)
+            gi += 1
+    for hist in DOM_HISTS:
+        for order in DOM_ORDERS:
+            for k in range(2 if quick else 6):
+                dom = DOMS[(gi + 7 * k) % len(DOMS)]; gi += 1
+                ps = grid_moduli(3 if order != "recipi" else 4, gi, dom_pred(dom)(2))
+                rs = grid_residues(ps)
+                add_sys("rns", hist, dom, ps, rs, grid_as(ps), order=order, grid=True)
+    # ---- RNSsystem, random part
+    for rnd in range(2 if quick else 40):
         for hist in DOM_HISTS:
             for dom in DOMS:
+                if quick and (rnd + DOM_HISTS.index(hist) + DOMS.index(dom)) % 2:
+                    continue
                 n = rng.choice(lens_small if rng.chance(4, 5) else lens_big)
                 maxp = maxcard[dom]
                 if maxp is None:
@@ -491,36 +646,50 @@ def main(tier, replay=None):
                     n = rng.range(2, mlcap)
                 ps = gen_moduli(rng, n, maxp, style, dom_pred(dom))
                 rs = gen_residues(rng, ps)
-                add_sys("rns", hist, dom, ps, rs, gen_as(rng, ps, nas if n <= 17 else 2))
-    # the documented example of the known copy defect
+                add_sys("rns", hist, dom, ps, rs, gen_as(rng, ps, nas if n <= 17 else 2), order=rng.choice(DOM_ORDERS))
+    # the documented example of the known copy defect, and the examples of the seeded changes
     add_sys("int", "copycold", "Integer", [3, 5, 7], [1, 2, 3], [100, 7, 105, 0, -5])
     add_sys("int", "fresh", "Integer", [101, 7], [0, 3], [101, 7, 707, 706, -101])
+    add_sys("int", "fresh", "Integer", [3, 5, 7], [1, 2, 3], [52], ctor="int32", order="ring")
+    add_sys("int", "copycold", "int64", [7, 5, 3, 11], [6, 0, 1, 10], [1000], ctor="int64", order="recipi")
     add_sys("rns", "setsame", "mi64", [11, 13, 17], [4, 5, 6], [11, 2431, 0])
-    # ---- RNSsystemFixed<Integer>
-    for rnd in range(20 if quick else 150):
+    add_sys("rns", "fresh", "mi64", [65521], [12345], [12345, 65521], order="ring")
+    add_sys("rns", "setcold", "mint", [(1 << 127) - 1], [12345], [12345, -1], order="mix")
+    # ---- RNSsystemFixed<Integer>: every number of primes of the grid x every history (the copy histories: c14_fixedcopy below)
+    def add_fixed(hist, tt, ps, rs, grid=False):
+        tt = fit_tt(tt, rs)
+        il = "fixed %s %s %d %s %s" % (hist, tt, len(ps), " ".join(map(str, ps)), " ".join(map(str, rs)))
+        ml = "fixed %d %s %s" % (len(ps), " ".join(map(str, ps)), " ".join(map(str, rs)))
+        cases.append({"kind": "fixed", "hist": hist, "sub": tt, "grid": grid, "ps": ps, "rs": rs, "impl": il, "model": ml})
+    gi = 0
+    for n in FIX_GRID_LENS:
+        for hist in FIX_HISTS:
+            ps = grid_moduli(n, gi, True)
+            add_fixed(hist, FIX_TTS[gi % len(FIX_TTS)], ps, grid_residues(ps), grid=True)
+            gi += 1
+    for rnd in range(8 if quick else 150):
         for hist in FIX_HISTS:
             n = rng.choice([1, 2, 3, 4, 5, 6, 7, 8, 9, 11, 15, 16, 17, 31, 33] if not rng.chance(1, 6) else lens_big)
             style = rng.choice(["smallprimes", "word", "multilimb", "powers", "tiny" if n < 12 else "smallprimes"])
             if style == "multilimb" and n > mlcap + 5:
                 n = rng.choice([2, 3, 4, 5, 7, 8, 9, 15, 16, 17])
             ps = gen_moduli(rng, n, None, style)
-            rs = gen_residues(rng, ps)
-            tt = rng.choice(["Integer", "int64", "uint64"])
-            if max(rs) >= (1 << 63):
-                tt = "Integer"
-            il = "fixed %s %s %d %s %s" % (hist, tt, n, " ".join(map(str, ps)), " ".join(map(str, rs)))
-            ml = "fixed %d %s %s" % (n, " ".join(map(str, ps)), " ".join(map(str, rs)))
-            cases.append({"kind": "fixed", "hist": hist, "sub": tt, "ps": ps, "rs": rs, "impl": il, "model": ml})
+            add_fixed(hist, rng.choice(FIX_TTS), ps, gen_residues(rng, ps))
     # ---- ChineseRemainder functor
     def add_cra(dom, red, M, D, A, e):
         il = "cra %s %d %d %d %d %d" % (dom, 1 if red else 0, M, D, A, e)
         variant = facts["cra_variant"] if red else "noreduce"
-        ml = "cra %s %d %d %d %d" % (variant, M, D, A, e)
+        ml = "cra3 %s %d %d %d %d" % (variant, M, D, A, e)
         cases.append({"kind": "cra", "hist": "", "sub": dom, "red": red, "M": M, "D": D, "A": A, "e": e, "impl": il, "model": ml})
     add_cra("mi64", True, 3, 5, 2, 1)
     add_cra("mi64", False, 3, 5, 2, 1)
-    for rnd in range(60 if quick else 1500):
-        dom = rng.choice(["mdouble", "mi64", "mu64", "mint"])
+    CRA_DOMS = ["mdouble", "mi64", "mu64", "mint", "mi32", "mu32", "mfloat"]
+    for dom in CRA_DOMS:                               # every instantiated domain, both variants, on every run
+        for red in (True, False):
+            D = prev_coprime(min(maxcard[dom] or 1000003, 1000003) - 1, 1)
+            add_cra(dom, red, 10 * D + 1, D, (3 * D + 2) % (10 * D + 1), D - 1)
+    for rnd in range(70 if quick else 1500):
+        dom = rng.choice(CRA_DOMS)
         maxp = maxcard[dom]
         k = rng.below(6)
         if k == 0:
@@ -646,6 +815,42 @@ def main(tier, replay=None):
     def flat(gs):
         return [str(x) for g in gs for x in g]
 
+    forms = {}            # call form -> number of cases that drove it (evidence: coverage.call_forms)
+
+    def bump(name, k=1):
+        forms[name] = forms.get(name, 0) + k
+
+    def form_count(kind, c):
+        if kind == "int":
+            ctor = ("IntRNSsystem(const array&)" if c["ctor"] == "Integer" else "IntRNSsystem(const vector<%s_t>&) [templated]" % c["ctor"])
+            bump(ctor)
+            bump("IntRNSsystem obtained by " + c["hist"])
+            bump("IntRNSsystem::RnsToMixedRadix/RnsToRing(vector<%s>)" % c["sub"], 5)
+            bump("IntRNSsystem first call " + ORDER_NAME[c["order"]])
+            bump("IntRNSsystem n=%d%s" % (len(c["ps"]), " (grid)" if c.get("grid") else ""))
+            for f in ("MixedRadixToRing", "RingToRns(oversized dest)", "RingToRns(empty dest)", "product", "product (2nd)", "Reciprocals", "reciprocal(i)", "NumOfPrimes", "ith", "Primes"):
+                bump("IntRNSsystem::" + f)
+        elif kind == "rns":
+            cls = "RNSsystem<Integer,%s>" % CXX[c["sub"]]
+            bump(cls + " obtained by " + c["hist"])
+            bump(cls + " first call " + ORDER_NAME[c["order"]])
+            bump("RNSsystem n=%d%s" % (len(c["ps"]), " (grid)" if c.get("grid") else ""))
+            for f in ("RnsToMixedRadix(empty dest)", "RnsToMixedRadix(exact dest)", "RnsToMixedRadix(oversized dest)", "RnsToRing", "MixedRadixToRing", "RingToRns(oversized dest)",
+                      "RingToRns(empty dest)", "Reciprocals", "reciprocal(i)", "size", "ith", "Primes"):
+                bump("RNSsystem::" + f)
+        elif kind == "fixed":
+            bump("RNSsystemFixed<Integer> obtained by " + c["hist"])
+            bump("RNSsystemFixed<Integer>::RnsToRing(%s)" % ("Array0<Integer>" if c["sub"] == "array0" else "vector<%s>" % c["sub"]), 2)
+            bump("RNSsystemFixed n=%d%s" % (len(c["ps"]), " (grid)" if c.get("grid") else ""))
+        elif kind == "cra":
+            bump("ChineseRemainder<IntegerDom,%s,%s> ctor/operator()/copy/operator=" % (CXX[c["sub"]], "true" if c["red"] else "false"))
+        elif kind == "lift":
+            bump("ChineseRemainder<IntegerDom,%s,true> lifting chain (%s)" % (CXX[c["sub"]], c["hist"]))
+        elif kind == "poly":
+            bump("Poly1CRT<%s> obtained by %s" % (PCXX[c["sub"]], c["hist"]))
+            for f in ("RnsToRing", "RnsToRing (2nd)", "RingToRns(oversized dest)", "size", "ith", "Reciprocals", "reciprocal(i)"):
+                bump("Poly1CRT::" + f)
+
     for i, c in enumerate(cases):
         kind = c["kind"]
         key = "%s/%s/%s" % (kind, c.get("sub", ""), c.get("hist", ""))
@@ -668,55 +873,70 @@ def main(tier, replay=None):
                 a = al[0]
                 PP = prod(ps)
                 V = crt_oracle(ps, rs)
+                order = c["order"]
                 if c["sub"] in BALANCED:
                     # the same law in the representation of the domain: digits, residues and value of least absolute value
                     Vb = bal(V, prod(ps))
                     cko = [bal(x, p) for x, p in zip(ck_oracle(ps), ps[1:])]
-                    exp = [bal_digits(ps, Vb), [Vb], [bal(x, p) for x in al for p in ps], [bal(x, PP) for x in al], cko, [Vb], [n] + ps, ps, cko, [Vb]]
+                    dg = bal_digits(ps, Vb)
+                    first = {"mix": dg, "ring": [Vb], "recip": cko, "recipi": cko[-1:], "rns": [bal(a, p) for p in ps]}[order]
+                    exp = [dg, [Vb], [bal(x, p) for x in al for p in ps], [bal(x, PP) for x in al], cko, [Vb], [n] + ps, ps, cko, [Vb],
+                           dg, dg, [bal(al[-1], p) for p in ps], first]
                 else:
-                    exp = ([mixed_digits(ps, V), [V]] + ([[PP]] if kind == "int" else [])
-                           + [[x % p for x in al for p in ps], [x % PP for x in al], ck_oracle(ps), [V]]
-                           + [[n] + ps, ps, ck_oracle(ps), [V]])
+                    dg = mixed_digits(ps, V)
+                    cko = ck_oracle(ps)
+                    first = {"mix": dg, "ring": [V], "recip": cko, "recipi": cko[-1:], "prod": [PP], "rns": [a % p for p in ps]}[order]
+                    exp = ([dg, [V]] + ([[PP]] if kind == "int" else [])
+                           + [[x % p for x in al for p in ps], [x % PP for x in al], cko, [V]]
+                           + [[n] + ps, ps, cko, [V]]
+                           + ([[PP]] if kind == "int" else [dg, dg]) + [[al[-1] % p for p in ps], first])
                 exp_toks = flat(exp)
                 got = [ints(g) for g in groups(il)]
-                chk.count((kind, c["sub"], c["hist"], tuple(ps), tuple(rs)), nontrivial=(n >= 2 and V > 1))
+                chk.count((kind, c["sub"], c["hist"], c["ctor"], order, tuple(ps), tuple(rs)), nontrivial=(n >= 2 and V > 1))
+                form_count(kind, c)
                 if got != exp:
                     spec_ok = False
                     names = ["RnsToMixedRadix", "RnsToRing", "product"] if kind == "int" else ["RnsToMixedRadix", "RnsToRing"]
                     names += ["RingToRns", "RnsToRing(RingToRns(a))", "Reciprocals", "RnsToRing(second call)", "NumOfPrimes/ith", "Primes", "reciprocal(i)", "MixedRadixToRing"]
+                    names += (["product(second call)"] if kind == "int" else ["RnsToMixedRadix(exact-size destination)", "RnsToMixedRadix(oversized destination)"])
+                    names += ["RingToRns(empty destination)", ORDER_NAME[order] + "(first call on the object)"]
                     bad = [names[j] for j in range(min(len(exp), len(got))) if got[j] != exp[j]] or ["shape"]
-                    if kind == "rns" and c["sub"] == "mru7" and bad == ["RingToRns"] and max(abs(x) for x in al) >= (1 << 128):
+                    if kind == "rns" and c["sub"] == "mru7" and set(bad) <= {"RingToRns", "RingToRns(empty destination)", "RingToRns(first call on the object)"} and max(abs(x) for x in al) >= (1 << 128):
                         # root cause outside the anchored code: Modular<ruint<K>>::init(Element&, const Integer&) truncates the
                         # Integer to the element width before reducing (known finding of C04, "wider-than-element")
                         chk.fail_input(SITE_RU, KLASS_RU, c, exp, il, "residues of an integer wider than the element type are wrong")
                     else:
                         cls = ("IntRNSsystem" if kind == "int" else "RNSsystem<Integer,%s>" % CXX[c["sub"]])
-                        chk.fail_input("%s::%s" % (cls, bad[0]), "obtained by %s, %d moduli" % (c["hist"], n), c, exp, il,
+                        how = "obtained by %s%s, %d moduli" % (c["hist"], (" from vector<%s>" % c["ctor"]) if kind == "int" else "", n)
+                        chk.fail_input("%s::%s" % (cls, bad[0]), how, c, exp, il,
                                        "differs from the unique CRT value / canonical residues: " + ", ".join(bad))
             elif kind == "fixed":
                 ps, rs = c["ps"], c["rs"]
                 V = crt_oracle(ps, rs)
                 exp_toks = [str(V), str(V)]
-                chk.count((kind, c["hist"], tuple(ps), tuple(rs)), nontrivial=(len(ps) >= 2 and V > 1))
+                chk.count((kind, c["hist"], c["sub"], tuple(ps), tuple(rs)), nontrivial=(len(ps) >= 2 and V > 1))
+                form_count(kind, c)
                 if itoks != exp_toks:
                     spec_ok = False
                     chk.fail_input("RNSsystemFixed<Integer>::RnsToRing", "obtained by %s, %d moduli" % (c["hist"], len(ps)), c, V, il,
                                    "differs from the unique CRT value in [0, prod)")
             elif kind == "cra":
                 M, D, A, e = c["M"], c["D"], c["A"], c["e"]
-                r, rcopy = [int(x) for x in il.split()]
+                r, rcopy, rasg = [int(x) for x in il.split()]
                 chk.count((kind, c["sub"], c["red"], M, D, A, e), nontrivial=(M > 1 and e != A % D))
+                form_count(kind, c)
                 cong = (r - A) % M == 0 and (r - e) % D == 0
                 site = SITE_CRA if c["red"] else "ChineseRemainder<Ring,Domain,false>::operator()"
-                if rcopy != r:
+                if rcopy != r or rasg != r:
                     spec_ok = False
-                    chk.fail_input(site, "copy of the functor answers differently", c, r, il, "a copy of the functor (original destroyed) gives another value")
+                    chk.fail_input(site, "copy of the functor answers differently" if rcopy != r else "assigned functor answers differently", c, r, il,
+                                   "a copy of the functor (original destroyed) / a functor assigned from it gives another value")
                 elif not cong:
                     spec_ok = False
                     chk.fail_input(site, "wrong residue", c, "res == A (mod M), res == e (mod D)", il, "the lifted value has wrong residues")
                 elif c["red"] and 0 <= A < M:
                     V = crt_oracle([M, D], [A, e])
-                    exp_toks = [str(V), str(V)]
+                    exp_toks = [str(V), str(V), str(V)]
                     if r != V:
                         spec_ok = False
                         chk.fail_input(SITE_CRA, KLASS_CRA, c, V, il, "congruent to the CRT value but not the unique integer in [0, M*D)")
@@ -730,6 +950,7 @@ def main(tier, replay=None):
                 exp_toks = flat(exp)
                 got = [ints(g) for g in groups(il)]
                 chk.count((kind, c["sub"], c["hist"], tuple(ps), tuple(rs)), nontrivial=(steps[-1] > 1))
+                form_count(kind, c)
                 if got != exp:
                     spec_ok = False
                     if got[1:] != exp[1:]:
@@ -748,6 +969,7 @@ def main(tier, replay=None):
                 exp_toks = flat(exp)
                 got = [ints(g) for g in groups(il)]
                 chk.count((kind, c["sub"], c["hist"], p, tuple(pts), tuple(rs)), nontrivial=(len(pts) >= 2 and any(rs)))
+                form_count(kind, c)
                 if got != exp:
                     spec_ok = False
                     names = ["RnsToRing", "RingToRns", "size/ith", "Reciprocals", "RnsToRing(second call)"]
@@ -793,16 +1015,21 @@ def main(tier, replay=None):
                     chk.fail_input(SITE_FIXCOPY, "obtained by %s, %d moduli" % (h, len(c["ps"])), dict(c, impl="c14_fixedcopy: %s %s" % (h, c["model"].split(" ", 1)[1])),
                                    V, l, "copy-constructed fixed system differs from the CRT value")
 
-    chk.cov["rule"] = ("systems obtained by every history (fresh, reuse, copy of cold/warm/copy, assignment over cold/warm, setPrimes over cold/warm, "
-                       "templated constructor) x residue domains (Integer with Integer/int64/uint64 residue containers; Modular<double|float|int32_t|int64_t|uint32_t|uint64_t|Integer|ruint<7>|Log16>, Montgomery<int32_t>, ModularBalanced<int64_t|double>) "
-                       "x pairwise coprime moduli lists of length 1..%d (small primes, tiny composites, prime powers, random words, values at maxCardinality, multi-limb; shuffled/descending) "
+    chk.cov["rule"] = ("systems obtained by every history (fresh, reuse, copy of cold/warm/copy, source changed after the copy, assignment over default/used/used-same-length, cold source over used target, "
+                       "setPrimes over default/used/same-length/back again, default-copied-then-set) x constructor argument types (IntRNSsystem: vector<Integer> plain, vector<int32|uint32|int64|uint64> templated) "
+                       "x residue container types (Integer|int32|uint32|int64|uint64; RNSsystemFixed also Array0<Integer>) x first entry point called on the object (RnsToMixedRadix|RnsToRing|Reciprocals|reciprocal(n-1)|product|RingToRns) "
+                       "x residue domains (Modular<double|float|int32_t|int64_t|uint32_t|uint64_t|Integer|ruint<7>|Log16>, Montgomery<int32_t>, ModularBalanced<int64_t|double>) "
+                       "x a deterministic grid of lengths 1,2,3,4,5,7,8,9,15,16,17,31,32,33 (fixed: 1..17,31,32,33,63,64,65) on every run for every history, plus random "
+                       "pairwise coprime moduli lists of length 1..%d (small primes, tiny composites, prime powers, random words, values at maxCardinality, multi-limb; shuffled/descending) "
                        "x residue vectors (all 0, all p-1, mixed edges, random; out-of-range residu[i>=1] for IntRNSsystem) ; functor on (M,D,A,e) incl. D at maxCardinality, multi-limb M; "
                        "Poly1CRT over GF(p), p in {2,3,5,7,101,65521,2^31-1,2^32-5,...}; non-trivial = at least two moduli and value > 1; distinct = (kind, domain, history, moduli, residues)"
                        % max(lens_big))
     chk.cov["traces_validated_against_impl"] = ncorr
+    chk.cov["call_forms"] = dict(sorted(forms.items()))
     chk.cov["distribution"] = dist
     chk.cov["source_facts"] = {k: (v if isinstance(v, (str, list)) else str(v)) for k, v in facts.items()}
     applicable = {"copy": "C14_int_copy_from_primes_refuted" if facts["cksrc"] == "primes" else "C14_int_history_independent + C14_int_end_to_end",
+                  "converting constructor": "C14_int_ctor_presized_refuted" if facts["ttck"] == "sized" else "C14_int_history_independent",
                   "functor": "C14_functor_unrepaired_range_refuted + C14_functor_unrepaired_congruent" if facts["cra_variant"] == "reduce" else "C14_functor_canonical"}
     chk.cov["theorems_applicable_to_current_source"] = applicable
     return chk.finish()
